@@ -322,7 +322,9 @@ pub fn table(l: usize) -> Vec<Cell> {
                 ("aoeuidhtns-\\", "AOEUIDHTNS_|"),
                 ("\0'qjkxbmwvz", "\0\"QJKXBMWVZ"),
             ],
-            AltGrWant::NoLevel,
+            // Kaufmann's layout (xkb us(dvp), the Windows installer) also defines an AltGr layer that is
+            // not transcribed here: AltGr level unconstrained, as for Colemak.
+            AltGrWant::Any,
         ),
         _ => panic!("harness: bad layout id"),
     }
